@@ -196,6 +196,15 @@ def check(run):
             if rng.random() < 0.7: text = crashgen.mutate_tokens(rng, text)
             ssrc[cid] = ('parseProperty (TigaPropertyBuilder)', text)
             j.case(cid, fork=True).model('xml', base).query(text, rt=False).end()
+    # the reader's attribute / element discipline, systematically: every single structural fault of two documents that between them
+    # contain every element the reader knows (templates, LSC charts, queries)
+    sweep = crashgen.structural_sweep(crashgen.wrap_xml(BASE_DECL, extra=crashgen.XML_EXTRA)) + crashgen.structural_sweep(crashgen.LSC_DOC)
+    if not thorough:
+        sweep = [x for i, x in enumerate(sweep) if 'attribute' in x[0] or i % 2 == run.seed % 2]
+    for k, (what, text) in enumerate(sweep):
+        cid = 'w%d' % k
+        ssrc[cid] = ('parse_XML_buffer', text)
+        j.case(cid, fork=True).model('xml', text).dump('errors').dump('inv').end()
     rr = vlib.run_jobs(j, flavour='asan')
     entries = collections.Counter()
     outcomes = collections.Counter()
@@ -211,13 +220,13 @@ def check(run):
         nonstd = [l for l in flat if l.startswith('EXC') and 'what=' not in l]
         if nonstd:
             run.fail('an exception that is not a std::exception escaped %s' % entry, dict(entry=entry, input=text, line=nonstd[0]), shape='nonstd-exception')
-    run.cov.update(evaluations=nt + ns, distinct_nontrivial=len(set(t for _, t in srcs.values())) + len(set(t for _, t in ssrc.values())), traces_validated_against_impl=nt,
+    run.cov.update(evaluations=nt + ns + len(sweep), reader_structural_faults=len(sweep), distinct_nontrivial=len(set(t for _, t in srcs.values())) + len(set(t for _, t in ssrc.values())), traces_validated_against_impl=nt,
                    callbacks_observed=ncalls, lr_replays=replayed, distinct_callbacks_observed=len(seen), callbacks_in_table=len(gen_lr.EFFECTS), automaton_states=info['states'], grammar_rules=info['rules'],
                    counting_symbols=info['stacks'][gen_lr.F]['counting_symbols'], entry_points=dict(entries), outcomes=dict(outcomes),
                    rule='(A) Coq: check_all on the LR(0) item automaton, rule actions and effect table regenerated from parser.y (bison --xml), for the expression, type and frame stacks. '
                         '(B) every builder callback of generated and token-mutated inputs (whole XML, whole XTA in both syntaxes, every xta_part_t with DocumentBuilder, queries with PropertyBuilder) is traced with the three stack heights before and after and compared with the effect table. '
                         '(C) ASan+UBSan build: generated, token-, byte- and element-mutated inputs through parse_XML_buffer, parse_XTA, parse_XTA(part) with DocumentBuilder and PrettyPrinter, parseProperty with PrettyPrinter and TigaPropertyBuilder, both syntax switches; '
-                        'very long identifiers, numbers and string literals (3999 .. 70000 characters) are spliced in; declarations with struct / array initialiser lists of every length (too few, exact, too many, nested, named) reach the type checker; any signal, sanitizer report, abort, timeout or non-std exception is a failing input')
+                        'very long identifiers, numbers and string literals (3999 .. 70000 characters) are spliced in; declarations with struct / array initialiser lists of every length (too few, exact, too many, nested, named) reach the type checker; (D) the attribute and element discipline of the XML reader, systematically: every single structural fault (each attribute removed / empty / blank; each element removed, duplicated, emptied, given stray text) of two documents that between them contain every element the reader knows (templates, LSC charts, queries). any signal, sanitizer report, abort, timeout or non-std exception is a failing input')
     run.cov['trusted_base'] += ['LRStack.v machine as a model of the bison skeleton (shift / reduce by any listed rule / recovery to the first state shifting error from a state without default reduction)',
                                 'tools/gen_lr.py + tools/gen_grammar.py (translator: bison --xml, parser.y action reader, effect composition)', 'the per-callback effect table in gen_lr.py (checked by the traces of B)',
                                 'harness/trace_gen.h (generated wrappers), hook TypeFragments::size()', 'ASan / UBSan runtime']
